@@ -40,11 +40,11 @@ const char *vf_name = "c02_stream";
  * gets 0 and does not announce a message that is already decoded (fixes/C02-01-stream-poll-eof-waiting-message.patch).
  * Until that is merged the peer goes away on pipes only (POLLHUP without POLLIN). */
 #ifndef C02_HANGUP_ON_SOCKETS
-# define C02_HANGUP_ON_SOCKETS 0
+# define C02_HANGUP_ON_SOCKETS 1
 #endif
 /* 1: the poll-driven reader relies on mpt_stream_poll() alone (needs fixes/C02-02) */
 #ifndef C02_STRICT_POLL
-# define C02_STRICT_POLL 0
+# define C02_STRICT_POLL 1
 #endif
 
 static const struct {
